@@ -4,11 +4,13 @@
 \* evaluating the history without the pruned change. Documents the open finding of C06.
 CONSTANTS
   Atomic = TRUE
+  DropDetached = TRUE
   Namespace = {1}
   M = 2
   MaxTs = 1
   Classes = {"ok", "soft", "badSig"}
   MaxBad = 2
+  AllowDetached = FALSE
   Emit = FALSE
   EmitMod = 1
 INIT InitGraphs
